@@ -107,7 +107,8 @@ func (e *Env) GetValue(symbol string) (reflect.Value, error) {
 	if externalLookup != nil {
 		var err error
 		value, err = externalLookup.Get(symbol)
-		if err == nil {
+		if err == nil && value.IsValid() && value.CanInterface() {
+			// a value that cannot be handed out again is not served
 			return value, nil
 		}
 	}
@@ -176,7 +177,7 @@ func (e *Env) Addr(symbol string) (reflect.Value, error) {
 	}
 	if e.externalLookup != nil {
 		v, err := e.externalLookup.Get(symbol)
-		if err == nil {
+		if err == nil && v.IsValid() && v.CanInterface() {
 			if v.CanAddr() {
 				return v.Addr(), nil
 			}
